@@ -336,16 +336,15 @@ Proof.
     - rewrite E. apply nth_mid.
     - rewrite E'. apply nth_mid. }
   unfold check_except in Ck. rewrite forallb_forall in Ck. specialize (Ck s1 I1).
-  rewrite forallb_forall in Ck. specialize (Ck s2 I2). unfold pair_ok in Ck. rewrite Cn in Ck. simpl in Ck.
-  apply orb_prop in Ck. destruct Ck as [Ck|Ck]; [|right; exact Ck]. left.
-  unfold compatible in Ck. apply orb_prop in Ck. destruct Ck as [Ck|Ck].
-  apply orb_prop in Ck. destruct Ck as [Ck|Ck].
-  apply orb_prop in Ck. destruct Ck as [Ck|Ck].
+  rewrite forallb_forall in Ck. specialize (Ck s2 I2). unfold pair_ok in Ck. rewrite Cn in Ck.
+  destruct (compatible tb s1 s2) eqn:Cp; [|right; exact Ck]. left. clear Ck.
+  unfold compatible in Cp.
+  destruct (common_lock s1 s2) eqn:Ck; [|destruct (ordered_by tb s1 s2) eqn:Ck1; [|destruct (ordered_by tb s2 s1) eqn:Ck2]].
   - (* a common lock *)
     destruct (common_lock_spec _ _ Ck) as (l & m1 & m2 & J1 & J2 & M).
     apply (holds_orders tr p t1 (Acc s1) q t2 (Acc s2) r l m1 m2 W E NE (L1 l m1 J1) (L2 l m2 J2) M).
   - (* s1 precedes the close that s2 has observed *)
-    destruct (ordered_by_spec _ _ _ Ck) as (x & Ix & Vx & Ax).
+    destruct (ordered_by_spec _ _ _ Ck1) as (x & Ix & Vx & Ax).
     pose proof (A2 _ Ax) as Rc.
     destruct (recv_after_close tr P2 t2 _ ((t2, Acc s2) :: r) W E' Rc) as (A & u & B & C & EP).
     rewrite <- LP2. rewrite EP. apply (close_recv_chain tr A u (before_chan x) B t2 C (Acc s2) r).
@@ -379,7 +378,7 @@ Proof.
         { rewrite E. f_equal. f_equal. exact Eq. }
         { exact NEu. } { exact H1. } { rewrite <- EA. exact Hu. } { left; reflexivity. }
   - (* s2 would precede a close that s1 has already observed: impossible *)
-    exfalso. destruct (ordered_by_spec _ _ _ Ck) as (x & Ix & Vx & Ax).
+    exfalso. destruct (ordered_by_spec _ _ _ Ck2) as (x & Ix & Vx & Ax).
     pose proof (A1 _ Ax) as Rc.
     destruct (recv_after_close tr p t1 _ ((t1, Acc s1) :: q ++ (t2, Acc s2) :: r) W E Rc) as (A & u & B & C & EP).
     pose proof (B2 x Ix) as Bx.
@@ -390,7 +389,7 @@ Proof.
       assert (List.length A < List.length p) by (rewrite EP, app_length; simpl; lia). lia.
     + apply (Bx u). unfold P2. rewrite EP. apply in_or_app. left. apply in_or_app. right. left. reflexivity.
   - (* both followed by the one close of a channel: the same thread *)
-    exfalso. unfold both_po in Ck. apply existsb_exists in Ck. destruct Ck as (x & Ix & Ex).
+    exfalso. unfold both_po in Cp. apply existsb_exists in Cp. destruct Cp as (x & Ix & Ex).
     destruct x as [c|c l]; [|discriminate Ex].
     apply existsb_exists in Ex. destruct Ex as (y & Iy & Ey).
     destruct y as [c'|c' l']; simpl in Ey; [|discriminate Ey]. apply String.eqb_eq in Ey. subst c'.
